@@ -59,10 +59,13 @@ pub struct QpLayout {
     pub trailing_lines: u8,
     /// case of type code and sense word: 0 canonical, 1 lower, 2 upper
     pub word_case: u8,
+    /// kilobytes of comment lines spread over the file (it then outgrows BufReader's 8 KiB buffer)
+    #[serde(default)]
+    pub padding_kb: u8,
 }
 impl QpLayout {
     pub fn plain() -> Self {
-        QpLayout { seed: 0, trailing_text: false, comment_lines: false, tab: false, numbers: 0, crlf: false, final_newline: true, trailing_lines: 0, word_case: 0 }
+        QpLayout { seed: 0, trailing_text: false, comment_lines: false, tab: false, numbers: 0, crlf: false, final_newline: true, trailing_lines: 0, word_case: 0, padding_kb: 0 }
     }
 }
 
@@ -305,6 +308,20 @@ impl QpModel {
         entries!(items, "non default names for variables");
         let items: Vec<Vec<String>> = self.con_names.iter().map(|(i, n)| vec![(i + 1).to_string(), n.clone()]).collect();
         entries!(items, "non default names for constraints");
+        if lay.padding_kb > 0 {
+            let total = lay.padding_kb as usize * 1024;
+            let mut made = 0;
+            let mut prng = Rng::new(lay.seed ^ 0xBADD);
+            while made < total {
+                let mut l = String::from(*prng.pick(&["! ", "# ", "% "]));
+                for _ in 0..70 {
+                    l.push((b'!' + prng.below(90) as u8) as char);
+                }
+                made += l.len() + 1;
+                let pos = prng.usize(lines.len() + 1);
+                lines.insert(pos, (l, LineKind::Noise));
+            }
+        }
         let last_required = lines.iter().rposition(|(_, k)| *k != LineKind::Noise).unwrap_or(0);
         for i in 0..lay.trailing_lines {
             lines.push((format!("trailing text {i} 1 2 3"), LineKind::Trailing));
@@ -510,5 +527,6 @@ pub fn gen_layout(rng: &mut Rng) -> QpLayout {
         final_newline: rng.chance(4, 5),
         trailing_lines: *rng.pick(&[0u8, 0, 0, 1, 3]),
         word_case: rng.below(3) as u8,
+        padding_kb: 0,
     }
 }
